@@ -36,7 +36,22 @@ def oracle_sweep(ctx, pid, tier, seed_offset=0, max_seconds=None):
     return mod
 
 
+def manifest_level(pid, default):
+    import json, os
+    try:
+        m = json.load(open(os.path.join(C.VERIF, 'MANIFEST.json')))
+        for c in m.get('checks', []):
+            if c['property_id'] == pid:
+                return c['level_claimed']['category']
+    except Exception:
+        pass
+    return default
+
+
 def run(ctx, pid, level, gen_needed, perrun, trusted, correspondence=None, tables=None, explanation=None, extra_rule=''):
+    level = manifest_level(pid, level)
+    if level == 'other' and not explanation:
+        explanation = 'mechanism theorems (see coverage.theorems) are checked on regenerated definitions; the remaining clauses are validated by the oracle sweep only'
     ok = C.translate(ctx)
     ok = ok and C.compile_gen(ctx, needed=gen_needed)
     ok = ok and C.compile_perrun(ctx, perrun)
